@@ -17,7 +17,8 @@ package main
 //                   certificate; the C15 value / structure checks run on the signed message too;
 //   correspondence: the bytes must equal etree_write of the model's signed tree (Build.v), DigestValue / SignatureValue
 //                   being read back from the output; sp.SigningContext()'s Hash / identifiers / canonicaliser and
-//                   GetSigningCertBytes must equal the model's.
+//                   GetSigningCertBytes must equal the model's; a covering subset of the plans is evaluated once more
+//                   with the MODELLED signer (c13signer.go, coq/Signer.v): the model computes the two values itself.
 
 import (
 	"crypto"
@@ -283,7 +284,7 @@ func c13Find(e *etree.Element, path ...string) *etree.Element {
 
 func init() {
 	runners["C13"] = func(c *Ctx) {
-		c.Rep.Rule = "signed AuthnRequest / LogoutRequest / LogoutResponse over 16 key configurations (4 slots present/absent, 4 RSA key pairs; plus ECDSA / Ed25519 signers and a failing key store) x 8 algorithm settings x 7 canonicaliser settings x 3 kinds x configuration strings with markup / quotes / whitespace / non-ASCII: serialise, re-parse, verify with goxmldsig against the designated slot's certificate only, compare declared algorithms / placement / embedded certificate; bytes compared with the Coq model (DigestValue, SignatureValue read back); non-trivial = non-default key configuration, algorithm, canonicaliser or special characters; distinct by (kind, key configuration, algorithm, canonicaliser, classes)"
+		c.Rep.Rule = "signed AuthnRequest / LogoutRequest / LogoutResponse over 16 key configurations (4 slots present/absent, 4 RSA key pairs; plus ECDSA / Ed25519 signers and a failing key store) x 8 algorithm settings x 7 canonicaliser settings x 3 kinds x configuration strings with markup / quotes / whitespace / non-ASCII: serialise, re-parse, verify with goxmldsig against the designated slot's certificate only, compare declared algorithms / placement / embedded certificate; bytes compared with the Coq model (DigestValue, SignatureValue read back), and for every (kind, canonicaliser), (algorithm, canonicaliser) and key configuration at least once with the MODELLED signer (Signer.v: DigestValue / SignatureValue computed by the model from Canon.canon_model and the digest / signature tables captured from the real run; the model's questions compared with what the library hashed); non-trivial = non-default key configuration, algorithm, canonicaliser or special characters; distinct by (kind, key configuration, algorithm, canonicaliser, classes)"
 		runC13(c)
 		runC13Histories(c)
 	}
@@ -374,6 +375,17 @@ func runC13(c *Ctx) {
 		nset++
 	}
 	newSigned()
+	// the same cases with DigestValue / SignatureValue COMPUTED by the model (Signer.v, c13signer.go)
+	var ms *CaseSet
+	nms := 0
+	newModelled := func() {
+		ms = c.NewSet(fmt.Sprintf("modelled%02d", nms), "Base Time Escape Xml Build Dsig Canon Signer",
+			"(list (string * string * option string) * list (string * string * string * string) * bcfg * keycfg * message * string * instant)",
+			"fun i => match i with (dt, st, cfg, k, m, id, now) => signer_obs dt st cfg k m id now end")
+		nms++
+	}
+	newModelled()
+	modelCovered := map[string]bool{}
 	cx := c.NewSet("context", "Base Time Escape Xml Build", "(bcfg * keycfg)",
 		"fun i => match i with (cfg, k) => signing_context_val cfg k end")
 	crReported, plReported := 0, 0
@@ -444,12 +456,31 @@ func runC13(c *Ctx) {
 			c.Violate("spec", key, label+": "+desc, replay)
 		}
 
+		// is this plan also evaluated with the modelled signer?  every (kind, canonicaliser), (algorithm, canonicaliser) and key
+		// configuration at least once; in the thorough tier every sixth plan besides
+		modelThis := false
+		for _, ck := range []string{"kc|" + pl.Kind + "|" + pl.Canon.Name, "ac|" + pl.Alg + "|" + pl.Canon.Name, "k|" + pl.Keys.label()} {
+			if !modelCovered[ck] {
+				modelCovered[ck] = true
+				modelThis = true
+			}
+		}
+		if c.Thorough() && pi%6 == 0 {
+			modelThis = true
+		}
+		var hashRec *c13HashRecorder
+		unhook := func() {}
+		if modelThis {
+			hashRec, unhook = c13HookHashes()
+		}
+
 		// ---- the implementation ----
 		var out string
 		var err error
 		panicked := false
 		a, b := "", ""
 		func() {
+			defer unhook()
 			defer func() {
 				if p := recover(); p != nil {
 					panicked = true
@@ -542,10 +573,34 @@ func runC13(c *Ctx) {
 			}
 			return "(" + cfgTerm + ", " + keyTerm + ", " + bldMessageTerm(pl.Kind, a, b) + ", " + S(id) + ", " + Instant(k.Now) + ", " + crypto + ")"
 		}
+		// the modelled case: tables instead of the crypto pair; same expected bytes, plus the three question checks
+		addModelled := func(obs, sv string) {
+			if !modelThis {
+				return
+			}
+			if len(ms.Cases) >= 24 {
+				newModelled()
+			}
+			st, signedOK := c13SignTable(w, hashRec.Seen, sv)
+			id := ""
+			if out != "" {
+				if rd := etree.NewDocument(); rd.ReadFromString(out) == nil && rd.Root() != nil {
+					id = strings.TrimPrefix(rd.Root().SelectAttrValue("ID", ""), "_")
+				}
+			} else if len(hashRec.Seen) > 0 {
+				// signing failed after hashing (failing key store): the random request id is read from the bytes that were hashed
+				id = c13IDFromCanonical(hashRec.Seen[0].Data)
+			}
+			ms.Add("("+c13DigestTable(hashRec.Seen)+", "+st+", "+cfgTerm+", "+keyTerm+", "+bldMessageTerm(pl.Kind, a, b)+", "+S(id)+", "+Instant(k.Now)+")",
+				VL([]string{obs, c13QueryExpect(hashRec.Seen, signedOK)}), label+" [modelled signer]")
+			c.Count("modelled-signer:" + pl.Canon.Name)
+			c.Count(fmt.Sprintf("modelled-signer:hashed=%d,signed=%v", len(hashRec.Seen), signedOK))
+		}
 		switch {
 		case panicked:
 			c.Count("outcome:panic")
 			cs.Add(input("(Ok (\"\", \"\"))"), VC("Panic"), label)
+			addModelled(VC("Panic"), "")
 			if hasKey {
 				viol("sign-panic", fmt.Sprintf("signing panicked although a key is configured: %v", err))
 			}
@@ -557,6 +612,7 @@ func runC13(c *Ctx) {
 				crypto = "(Err (EOther \"\"))"
 			}
 			cs.Add(input(crypto), VC("Err", errVal(err)), label)
+			addModelled(VC("Err", errVal(err)), "")
 			if hasKey && !des.Failing && des.Key.PK != "PK_Unknown" {
 				viol("sign-error", fmt.Sprintf("signing failed with a usable key configured: %v", err))
 			}
@@ -567,6 +623,7 @@ func runC13(c *Ctx) {
 		if e := rd.ReadFromString(out); e != nil || rd.Root() == nil {
 			viol("not-well-formed", fmt.Sprintf("signed output does not re-parse: %v", e))
 			cs.Add(input("(Ok (\"\", \"\"))"), VC("Ok", c13Pieces(out)), label)
+			addModelled(VC("Ok", c13Pieces(out)), "")
 			continue
 		}
 		root := rd.Root()
@@ -588,6 +645,7 @@ func runC13(c *Ctx) {
 			}
 		}
 		cs.Add(input("(Ok ("+S(dv)+", "+S(sv)+"))"), VC("Ok", c13Pieces(out)), label)
+		addModelled(VC("Ok", c13Pieces(out)), sv)
 		if i := pi; i < 2 {
 			c.Sample(map[string]interface{}{"case": label, "output": out})
 		}
